@@ -65,10 +65,3 @@ if __name__ == "__main__":
     m = build()
     json.dump(m, open("/verif/MANIFEST.json", "w"), indent=1)
     print("claimed:", [c["property_id"] for c in m["checks"]], "n/a:", len(m["not_applicable"]))
-    try:
-        sys.path.insert(0, "/opt/veriftools/pyvenv/lib/python3.11/site-packages")
-        import jsonschema
-        jsonschema.validate(m, json.load(open("/root/.vp/MANIFEST.schema.json")))
-        print("manifest validates")
-    except ImportError:
-        print("jsonschema not importable here")
